@@ -216,7 +216,13 @@ class Gef:
                 from rules.live import mutates
                 if mutates(prog, tgt) or any((a.ty or '').startswith('&mut') for a in c.args):
                     if self.inline and tgt.path not in self.stack and len(self.stack) < 3 and not tgt.is_closure and tgt.path != self.fn.path:
-                        sub = Gef(prog, tgt, self.mirror, inline=True, stack=self.stack | {self.fn.path}).effects()
+                        consts = {}
+                        for i, a in enumerate(c.args):
+                            a = strip(a)
+                            if a.kind == 'const' and isinstance(a.args[0], (int, bool)) and not prog.is_empty_ref(a) and not prog.is_nil_index(a):
+                                consts[i + 1] = int(a.args[0])
+                        tgt_s = prog.specialise(tgt, consts) if consts else tgt
+                        sub = Gef(prog, tgt_s, self.mirror, inline=True, stack=self.stack | {self.fn.path}).effects()
                         argt = {'<P%d>' % (i + 1): self.term(a) for i, a in enumerate(c.args)}
                         for (g2, kind2, text2) in sub:
                             if kind2 == 'ret':
